@@ -124,7 +124,23 @@ def judgeSeq (c : ExpCase) (tgt : String × String) (impl : String) (acc : Tally
     judge bare tgt r3 (judge bare tgt r2 (judge c tgt r1 acc))
   | _ => { acc with diffs := s!"{tgt.1}#{tgt.2}: a sequence case needs three answers, got [{impl}]" :: acc.diffs }
 
+/-- interrupted reads: `cut N k kind` — the model's `execute` reads whole lists, so the only faithful outcomes are the
+full leaf (the fault lies beyond the data) or an error -/
+def cutStep (c impl : String) : String :=
+  match (c.splitOn " ") with
+  | ["cut", n, k, _] =>
+    match n.toNat?, k.toNat? with
+    | some n, some k =>
+      let expected := if k > n then s!"ok {n}" else "err"
+      if impl == expected then ok (if k > n then "cut-beyond-data" else "cut-error") (k ≤ n)
+      else if impl.startsWith "ok " && k ≤ n then
+        specViol s!"an interrupted read produced a leaf instead of an error ({impl}, {n} users stored, read failed after {k})"
+      else modelDiff expected
+    | _, _ => "SKIP unparsable-case"
+  | _ => "SKIP unparsable-case"
+
 def step (c impl : String) : String :=
+  if c.startsWith "cut " then cutStep c impl else
   match parseCase c with
   | none => "SKIP unparsable-case"
   | some cs =>
